@@ -337,7 +337,10 @@ def sec_other_branch(c):
     br, lh, anc, e, tip, g = c.br, c.lh, c.anc, bz.enc, c.tip, c.g
     # numbers in another branch: revno:N:PATH, -N:PATH
     olh = gm.lefthand(g, c.other_tip)
-    n = 1 + c.rot % len(olh)
+    # preferably a number that names different revisions in the two branches
+    differ = [i for i in range(1, len(olh) + 1)
+              if i > len(lh) or lh[i - 1] != olh[i - 1]]
+    n = differ[c.rot % len(differ)] if differ else 1 + c.rot % len(olh)
     for s, i in (("revno:%d:%s" % (n, c.other_path), n),
                  ("%d:%s" % (n, c.other_path), n),
                  ("-1:%s" % c.other_path, len(olh)),
